@@ -643,18 +643,22 @@ func ruleReaderWriterAgreement(c *Ctx, pf *parserFacts) {
 			if f == nil || !isAnalogField(f) {
 				continue
 			}
-			inCase := false
-			for t, r := range regions {
-				if r[b] {
-					inCase = true
-					if reads[t] == nil {
-						reads[t] = map[string]bool{}
+			// a read counts where its value is put to use: `channel := (d.channel + analog.ChannelOffset) % 16` computed ahead of
+			// the type switch and used in two of its cases is a read of those two types
+			for _, ub := range useBlocks(in.(ssa.Value)) {
+				inCase := false
+				for t, r := range regions {
+					if r[ub] {
+						inCase = true
+						if reads[t] == nil {
+							reads[t] = map[string]bool{}
+						}
+						reads[t][f.Name()] = true
 					}
-					reads[t][f.Name()] = true
 				}
-			}
-			if !inCase {
-				common[f.Name()] = true
+				if !inCase {
+					common[f.Name()] = true
+				}
 			}
 		}
 	}
@@ -682,6 +686,38 @@ func ruleReaderWriterAgreement(c *Ctx, pf *parserFacts) {
 			c.OK("R10.1b", key, pos, fmt.Sprintf("reads %v ⊆ writes %v", setKeys(reads[t]), setKeys(writes[t])))
 		}
 	}
+}
+
+// useBlocks: the blocks in which the value read at v (a field, or what is loaded from a field address) is put to use -
+// followed through pure value computations (arithmetic, conversions, loads, phis) to the instructions that do something
+// with the result (calls, stores, branches, sends, returns, ...). A value nobody uses is used nowhere.
+func useBlocks(v ssa.Value) []*ssa.BasicBlock {
+	seen := map[ssa.Value]bool{}
+	blocks := map[*ssa.BasicBlock]bool{}
+	var out []*ssa.BasicBlock
+	var walk func(v ssa.Value)
+	walk = func(v ssa.Value) {
+		if seen[v] || v.Referrers() == nil {
+			return
+		}
+		seen[v] = true
+		for _, r := range *v.Referrers() {
+			switch x := r.(type) {
+			case *ssa.DebugRef:
+			case *ssa.BinOp, *ssa.Convert, *ssa.ChangeType, *ssa.Phi, *ssa.Field:
+				walk(x.(ssa.Value))
+			case *ssa.UnOp:
+				walk(x)
+			default:
+				if !blocks[r.Block()] {
+					blocks[r.Block()] = true
+					out = append(out, r.Block())
+				}
+			}
+		}
+	}
+	walk(v)
+	return out
 }
 
 // ruleBounds: R10.2 validation before acceptance.
